@@ -97,19 +97,47 @@ fn dump_crate<'tcx>(tcx: TyCtxt<'tcx>) -> J {
 }
 
 impl<'tcx> Cx<'tcx> {
+    /// Canonical path: crate name + definition path, with impl blocks named after their self type
+    /// (`krate::module::Type::method`, `krate::module::<Type as Trait>::method`), independent of
+    /// re-exports and of the crate the reference is seen from.
     fn path_of(&self, did: DefId) -> String {
-        // variants are named through their enum so that prelude re-exports (Some/None/Ok/Err) get one
-        // canonical path
-        if matches!(self.tcx.def_kind(did), DefKind::Variant) {
-            let parent = self.tcx.parent(did);
-            return format!("{}::{}", self.path_of(parent), self.tcx.item_name(did));
+        use rustc_hir::definitions::DefPathData as D;
+        let tcx = self.tcx;
+        let mut segs: Vec<String> = Vec::new();
+        let mut cur = did;
+        loop {
+            let key = tcx.def_key(cur);
+            match key.disambiguated_data.data {
+                D::CrateRoot => break,
+                D::Impl => {
+                    let st = tcx.type_of(cur).instantiate_identity().skip_norm_wip();
+                    let sname = match st.kind() {
+                        ty::Adt(adt, _) => tcx.item_name(adt.did()).to_string(),
+                        _ => with_no_trimmed_paths!(st.to_string()),
+                    };
+                    match tcx.impl_opt_trait_ref(cur) {
+                        Some(tr) => {
+                            let tr = tr.instantiate_identity().skip_norm_wip();
+                            segs.push(format!("[{} as {}]", sname, tcx.item_name(tr.def_id)));
+                        }
+                        None => segs.push(sname),
+                    }
+                }
+                D::Ctor => {}
+                D::Closure => segs.push(format!("{{closure#{}}}", key.disambiguated_data.disambiguator)),
+                other => match other.get_opt_name() {
+                    Some(n) => segs.push(n.to_string()),
+                    None => segs.push(format!("{{{:?}}}", other).replace(' ', "")),
+                },
+            }
+            match key.parent {
+                Some(p) => cur = DefId { krate: cur.krate, index: p },
+                None => break,
+            }
         }
-        let s = with_no_trimmed_paths!(self.tcx.def_path_str(did));
-        if did.is_local() {
-            format!("{}::{}", self.krate, s)
-        } else {
-            s
-        }
+        segs.push(tcx.crate_name(did.krate).to_string());
+        segs.reverse();
+        segs.join("::")
     }
 
     fn span(&self, sp: Span) -> String {
@@ -257,6 +285,10 @@ impl<'tcx> Cx<'tcx> {
             let sig = tcx.fn_sig(owner).instantiate_identity().skip_norm_wip().skip_binder();
             fields.push(("ret", J::s(&self.ty_str(sig.output()))));
             fields.push(("vis", J::s(&format!("{:?}", tcx.visibility(owner)))));
+        }
+        if matches!(kind, DefKind::Const { .. } | DefKind::Static { .. } | DefKind::AssocConst { .. }) {
+            let t = tcx.type_of(owner).instantiate_identity().skip_norm_wip();
+            fields.push(("ty", J::s(&self.ty_str(t))));
         }
         let derived = tcx.def_span(owner).from_expansion()
             && tcx.def_span(owner).macro_backtrace().any(|d| {
